@@ -2678,7 +2678,7 @@ namespace awkward {
             reinterpret_cast<std::complex<float>*>(ptr.get()),
             flatlength_so_far,
             reinterpret_cast<bool*>(contiguous_array.data()),
-            flatlength >> 1);
+            flatlength);
           break;
         case util::dtype::int8:
           err = kernel::NumpyArray_fill<int8_t, std::complex<float>>(
@@ -2686,7 +2686,7 @@ namespace awkward {
             reinterpret_cast<std::complex<float>*>(ptr.get()),
             flatlength_so_far,
             reinterpret_cast<int8_t*>(contiguous_array.data()),
-            flatlength >> 1);
+            flatlength);
           break;
         case util::dtype::int16:
           err = kernel::NumpyArray_fill<int16_t, std::complex<float>>(
@@ -2694,7 +2694,7 @@ namespace awkward {
             reinterpret_cast<std::complex<float>*>(ptr.get()),
             flatlength_so_far,
             reinterpret_cast<int16_t*>(contiguous_array.data()),
-            flatlength >> 1);
+            flatlength);
           break;
         case util::dtype::int32:
           err = kernel::NumpyArray_fill<int32_t, std::complex<float>>(
@@ -2702,7 +2702,7 @@ namespace awkward {
             reinterpret_cast<std::complex<float>*>(ptr.get()),
             flatlength_so_far,
             reinterpret_cast<int32_t*>(contiguous_array.data()),
-            flatlength >> 1);
+            flatlength);
           break;
         case util::dtype::int64:
           err = kernel::NumpyArray_fill<int64_t, std::complex<float>>(
@@ -2710,7 +2710,7 @@ namespace awkward {
             reinterpret_cast<std::complex<float>*>(ptr.get()),
             flatlength_so_far,
             reinterpret_cast<int64_t*>(contiguous_array.data()),
-            flatlength >> 1);
+            flatlength);
           break;
         case util::dtype::uint8:
           err = kernel::NumpyArray_fill<uint8_t, std::complex<float>>(
@@ -2718,7 +2718,7 @@ namespace awkward {
             reinterpret_cast<std::complex<float>*>(ptr.get()),
             flatlength_so_far,
             reinterpret_cast<uint8_t*>(contiguous_array.data()),
-            flatlength >> 1);
+            flatlength);
           break;
         case util::dtype::uint16:
           err = kernel::NumpyArray_fill<uint16_t, std::complex<float>>(
@@ -2726,7 +2726,7 @@ namespace awkward {
             reinterpret_cast<std::complex<float>*>(ptr.get()),
             flatlength_so_far,
             reinterpret_cast<uint16_t*>(contiguous_array.data()),
-            flatlength >> 1);
+            flatlength);
           break;
         case util::dtype::uint32:
           err = kernel::NumpyArray_fill<uint32_t, std::complex<float>>(
@@ -2734,7 +2734,7 @@ namespace awkward {
             reinterpret_cast<std::complex<float>*>(ptr.get()),
             flatlength_so_far,
             reinterpret_cast<uint32_t*>(contiguous_array.data()),
-            flatlength >> 1);
+            flatlength);
           break;
         case util::dtype::uint64:
           err = kernel::NumpyArray_fill<uint64_t, std::complex<float>>(
@@ -2742,7 +2742,7 @@ namespace awkward {
             reinterpret_cast<std::complex<float>*>(ptr.get()),
             flatlength_so_far,
             reinterpret_cast<uint64_t*>(contiguous_array.data()),
-            flatlength >> 1);
+            flatlength);
           break;
         case util::dtype::float16:
           throw std::runtime_error(
@@ -2755,7 +2755,7 @@ namespace awkward {
             reinterpret_cast<std::complex<float>*>(ptr.get()),
             flatlength_so_far,
             reinterpret_cast<float*>(contiguous_array.data()),
-            flatlength >> 1);
+            flatlength);
           break;
         case util::dtype::float64:
           err = kernel::NumpyArray_fill<double, std::complex<float>>(
@@ -2763,7 +2763,7 @@ namespace awkward {
             reinterpret_cast<std::complex<float>*>(ptr.get()),
             flatlength_so_far,
             reinterpret_cast<double*>(contiguous_array.data()),
-            flatlength >> 1);
+            flatlength);
           break;
         case util::dtype::complex64:
           err = kernel::NumpyArray_fill<std::complex<float>, std::complex<float>>(
@@ -2772,7 +2772,6 @@ namespace awkward {
             flatlength_so_far,
             reinterpret_cast<std::complex<float>*>(contiguous_array.data()),
             flatlength);
-            flatlength = flatlength * 2;
           break;
         default:
           throw std::runtime_error(
@@ -2792,7 +2791,7 @@ namespace awkward {
             reinterpret_cast<std::complex<double>*>(ptr.get()),
             flatlength_so_far,
             reinterpret_cast<bool*>(contiguous_array.data()),
-            flatlength >> 1);
+            flatlength);
           break;
         case util::dtype::int8:
           err = kernel::NumpyArray_fill<int8_t, std::complex<double>>(
@@ -2800,7 +2799,7 @@ namespace awkward {
             reinterpret_cast<std::complex<double>*>(ptr.get()),
             flatlength_so_far,
             reinterpret_cast<int8_t*>(contiguous_array.data()),
-            flatlength >> 1);
+            flatlength);
           break;
         case util::dtype::int16:
           err = kernel::NumpyArray_fill<int16_t, std::complex<double>>(
@@ -2808,7 +2807,7 @@ namespace awkward {
             reinterpret_cast<std::complex<double>*>(ptr.get()),
             flatlength_so_far,
             reinterpret_cast<int16_t*>(contiguous_array.data()),
-            flatlength >> 1);
+            flatlength);
           break;
         case util::dtype::int32:
           err = kernel::NumpyArray_fill<int32_t, std::complex<double>>(
@@ -2816,7 +2815,7 @@ namespace awkward {
             reinterpret_cast<std::complex<double>*>(ptr.get()),
             flatlength_so_far,
             reinterpret_cast<int32_t*>(contiguous_array.data()),
-            flatlength >> 1);
+            flatlength);
           break;
         case util::dtype::int64:
           err = kernel::NumpyArray_fill<int64_t, std::complex<double>>(
@@ -2824,7 +2823,7 @@ namespace awkward {
             reinterpret_cast<std::complex<double>*>(ptr.get()),
             flatlength_so_far,
             reinterpret_cast<int64_t*>(contiguous_array.data()),
-            flatlength >> 1);
+            flatlength);
           break;
         case util::dtype::uint8:
           err = kernel::NumpyArray_fill<uint8_t, std::complex<double>>(
@@ -2832,7 +2831,7 @@ namespace awkward {
             reinterpret_cast<std::complex<double>*>(ptr.get()),
             flatlength_so_far,
             reinterpret_cast<uint8_t*>(contiguous_array.data()),
-            flatlength >> 1);
+            flatlength);
           break;
         case util::dtype::uint16:
           err = kernel::NumpyArray_fill<uint16_t, std::complex<double>>(
@@ -2840,7 +2839,7 @@ namespace awkward {
             reinterpret_cast<std::complex<double>*>(ptr.get()),
             flatlength_so_far,
             reinterpret_cast<uint16_t*>(contiguous_array.data()),
-            flatlength >> 1);
+            flatlength);
           break;
         case util::dtype::uint32:
           err = kernel::NumpyArray_fill<uint32_t, std::complex<double>>(
@@ -2848,7 +2847,7 @@ namespace awkward {
             reinterpret_cast<std::complex<double>*>(ptr.get()),
             flatlength_so_far,
             reinterpret_cast<uint32_t*>(contiguous_array.data()),
-            flatlength >> 1);
+            flatlength);
           break;
         case util::dtype::uint64:
           err = kernel::NumpyArray_fill<uint64_t, std::complex<double>>(
@@ -2856,7 +2855,7 @@ namespace awkward {
             reinterpret_cast<std::complex<double>*>(ptr.get()),
             flatlength_so_far,
             reinterpret_cast<uint64_t*>(contiguous_array.data()),
-            flatlength >> 1);
+            flatlength);
           break;
         case util::dtype::float16:
           throw std::runtime_error(
@@ -2869,7 +2868,7 @@ namespace awkward {
             reinterpret_cast<std::complex<double>*>(ptr.get()),
             flatlength_so_far,
             reinterpret_cast<float*>(contiguous_array.data()),
-            flatlength >> 1);
+            flatlength);
           break;
         case util::dtype::float64:
           err = kernel::NumpyArray_fill<double, std::complex<double>>(
@@ -2877,7 +2876,7 @@ namespace awkward {
             reinterpret_cast<std::complex<double>*>(ptr.get()),
             flatlength_so_far,
             reinterpret_cast<double*>(contiguous_array.data()),
-            flatlength >> 1);
+            flatlength);
           break;
         case util::dtype::complex64:
           err = kernel::NumpyArray_fill<std::complex<float>, std::complex<double>>(
@@ -2886,7 +2885,6 @@ namespace awkward {
             flatlength_so_far,
             reinterpret_cast<std::complex<float>*>(contiguous_array.data()),
             flatlength);
-            flatlength = flatlength * 2;
           break;
         case util::dtype::complex128:
           err = kernel::NumpyArray_fill<std::complex<double>, std::complex<double>>(
@@ -2895,7 +2893,6 @@ namespace awkward {
             flatlength_so_far,
             reinterpret_cast<std::complex<double>*>(contiguous_array.data()),
             flatlength);
-            flatlength = flatlength * 2;
           break;
         default:
           throw std::runtime_error(
